@@ -2,8 +2,10 @@ package lab
 
 import (
 	"fmt"
+	"net"
 	"strings"
 	"sync"
+	"sync/atomic"
 	"time"
 )
 
@@ -168,6 +170,7 @@ func CheckC01(l *Lab, verifDir string) int {
 				if w == 0 {
 					c01Reattach(rep, f, l.Pick(4, 30))
 					c01SharedIDAndHostClose(rep, f, l.Pick(4, 30))
+					c01Alternates(rep, f, l.Pick(3, 20))
 				}
 				c01PostGateway(rep, f)
 			}(w)
@@ -425,6 +428,75 @@ func c01SharedIDAndHostClose(rep *Report, f *Fixture, n int) {
 		rep.Count("host_close_probes", 1)
 		if accepts > 1 {
 			rep.Violate("C01/second-connection-for-one-tunnel/after-host-closed", fmt.Sprintf("the host closed its side of the channel and the client kept sending DATA: the host saw %d connections for one channel-create", accepts), nil)
+		}
+	}
+}
+
+// c01Alternates: the channel-create names an authorised host that does not answer, followed by further
+// names (a second resource name / alternate names) of a machine that does listen on that port: the
+// tunnel completed the sequence for the first name only, nothing may be connected for the others.
+func c01Alternates(rep *Report, f *Fixture, n int) {
+	other, err := net.Listen("tcp", fmt.Sprintf("127.0.0.2:%d", f.U.Port))
+	if err != nil {
+		rep.Inconclusive("alternates probe: cannot listen on 127.0.0.2:" + fmt.Sprint(f.U.Port))
+		return
+	}
+	defer other.Close()
+	var accepted int32
+	go func() {
+		for {
+			c, err := other.Accept()
+			if err != nil {
+				return
+			}
+			atomic.AddInt32(&accepted, 1)
+			c.Close()
+		}
+	}()
+	name := UTF16LE("127.0.0.1")
+	alt := UTF16LE("127.0.0.2")
+	withLen := func(b []byte) []byte { return append([]byte{byte(len(b)), byte(len(b) >> 8)}, b...) }
+	bodies := map[string][]byte{
+		"one resource name, one alternate name": append(ChannelCreateRaw(1, 1, uint16(f.U.Port), 3, uint16(len(name)), name), withLen(alt)...),
+		"two resource names":                    append(ChannelCreateRaw(2, 0, uint16(f.U.Port), 3, uint16(len(name)), name), withLen(alt)...),
+		"one resource name, three alternates":   append(append(append(ChannelCreateRaw(1, 3, uint16(f.U.Port), 3, uint16(len(name)), name), withLen(UTF16LE("nowhere.example"))...), withLen(alt)...), withLen(alt)...),
+	}
+	for i := 0; i < n; i++ {
+		for what, body := range bodies {
+			tr := Transports()[i%len(Transports())]
+			env := f.Env(tr)
+			t, _, err := env.OpenTunnel(NewConnID("al"))
+			if err != nil || t == nil {
+				rep.Inconclusive("alternates probe: open")
+				continue
+			}
+			okc := true
+			for k, s := range []Sym{f.SymHS(true), f.SymTC("good", f.U.Addr()), f.SymTA()} {
+				t.Send(s.Wire)
+				if got, _ := t.WaitPackets(k+1, env.wd()); got < k+1 {
+					okc = false
+					break
+				}
+			}
+			if !okc {
+				t.Close()
+				rep.Inconclusive("alternates probe: setup")
+				continue
+			}
+			before := atomic.LoadInt32(&accepted)
+			t.Send(Packet(PktChannelCreate, body))
+			st := uint32(0xFFFFFFFF)
+			if got, _ := t.WaitPackets(4, env.wd()); got >= 4 {
+				st, _ = LenientStatus(t.Snapshot().Packets[3].Raw)
+			}
+			time.Sleep(30 * time.Millisecond)
+			t.Close()
+			got := atomic.LoadInt32(&accepted) - before
+			rep.Eval(HashStr("alternates", what, tr, st, got))
+			rep.Count("alternate_name_probes", 1)
+			if st == 0 || got > 0 {
+				rep.Violate("C01/connection-without-channel-creation-for-that-host/alternate-names", fmt.Sprintf("channel-create for %s (authorised, not answering) with %s naming 127.0.0.2: status %#x, the listener on 127.0.0.2:%d got %d connection(s)", f.U.Addr(), what, st, f.U.Port, got), nil)
+			}
 		}
 	}
 }
